@@ -705,4 +705,15 @@ func main() {
 	}
 	fmt.Printf("C06ScalarWrites: %d packages, %d functions, %d scalar-object writes, %d cell writes (%d to fresh cells, %d of unknown origin), %d shape facts\n",
 		nPkgs, nFuncs, len(scalars), len(cells), nFresh, nOther, len(shape))
+	// for the reader of a failed obligation: the sites the two theorems are about
+	var ss, us []string
+	for _, s := range scalars {
+		ss = append(ss, fmt.Sprintf("%s:%d %s %s.Value %s", s.file, s.line, s.fn, s.typ, s.kind))
+	}
+	for _, c := range cells {
+		if c.origin == "slot" && !c.guarded {
+			us = append(us, fmt.Sprintf("%s:%d %s .%s", c.file, c.line, c.fn, c.field))
+		}
+	}
+	fmt.Printf("  scalar-object writes: %s\n  unguarded writes to slot cells: %s\n", strings.Join(ss, "; "), strings.Join(us, "; "))
 }
